@@ -138,10 +138,17 @@ func (w *Writer) writeByte(v byte) *Writer {
 // 若任一步骤失败，会回滚缓冲区到调用前长度，并保证 Bytes() 不包含部分写入的数据。
 func (w *Writer) WriteMessage(message any, codec Codec) (err error) {
 	startLen := len(w.buf)
+	if message == nil {
+		// nil 消息（例如失败的 PipeResult 不携带结果消息）：空载荷 + 保留消息名
+		if err = w.WriteFrom([]byte(nil), nilMessageName); err != nil {
+			w.buf = w.buf[:startLen]
+		}
+		return err
+	}
 	messageDesc := QueryMessageDesc(message)
 
 	if messageDesc.IsOutside() {
-		data, encErr := codec.Encode(message)
+		data, encErr := EncodeOutside(codec, message)
 		if encErr != nil {
 			return encErr
 		}
